@@ -439,19 +439,7 @@ func c08EngineLayer(x *c08Ctx, c *Ctx) int64 {
 		return "engine=" + verdictOf(m.GetBasicResult(), byText) + " netengine=" + verdictOf(r2, byText)
 	}
 	dnsVerdict := func(lines []string) string {
-		e := urlfilter.NewDNSEngine(stringStorage(joinLines(lines) + "\n"))
-		res, ok := e.MatchRequest(dnsReq)
-		if isBad(res.NetworkRule) {
-			return "badfilter rule returned"
-		}
-		var rw []string
-		for _, r := range res.DNSRewrites() {
-			if isBad(r) {
-				return "badfilter rewrite returned"
-			}
-			rw = append(rw, r.RuleText)
-		}
-		return fmt.Sprintf("matched=%v rule=%s rewrites=%v", ok, verdictOf(res.NetworkRule, byText), rw)
+		return dnsVerdictOf(lines, byText, dnsReq) + " | with a hosts line: " + dnsVerdictOf(append([]string{"0.0.0.0 ads.example.com"}, lines...), byText, dnsReq)
 	}
 	var evals int64
 	var mu sync.Mutex
@@ -532,4 +520,24 @@ func scenDNSReq() *urlfilter.DNSRequest {
 	r := &urlfilter.DNSRequest{Hostname: "ads.example.com", DNSType: 1, ClientName: "laptop", SortedClientTags: []string{"pc"}}
 	r.ClientIP = mustAddr("10.0.0.1")
 	return r
+}
+
+// dnsVerdictOf renders the DNS verdict for a list: basic rule class, host rules and effective rewrites.
+func dnsVerdictOf(lines []string, byText map[string]srule, dnsReq *urlfilter.DNSRequest) string {
+	e := urlfilter.NewDNSEngine(stringStorage(joinLines(lines) + "\n"))
+	res, ok := e.MatchRequest(dnsReq)
+	if isBad(res.NetworkRule) {
+		return "badfilter rule returned"
+	}
+	var rw, hosts []string
+	for _, r := range res.DNSRewrites() {
+		if isBad(r) {
+			return "badfilter rewrite returned"
+		}
+		rw = append(rw, r.RuleText)
+	}
+	for _, h := range res.HostRulesV4 {
+		hosts = append(hosts, h.RuleText)
+	}
+	return fmt.Sprintf("matched=%v rule=%s hosts=%v rewrites=%v", ok, verdictOf(res.NetworkRule, byText), hosts, rw)
 }
